@@ -3,6 +3,7 @@ package value
 import (
 	"fmt"
 	"sync"
+	"sync/atomic"
 )
 
 var MutexClass *Class              // ::Std::Sync::Mutex
@@ -11,6 +12,7 @@ var MutexUnlockedErrorClass *Class // ::Std::Sync::Mutex::UnlockedError
 // Wraps a Go mutex.
 type Mutex struct {
 	Native sync.Mutex
+	locked atomic.Bool // unlocking an unlocked sync.Mutex is a fatal error that cannot be recovered
 }
 
 func NewMutex() *Mutex {
@@ -55,6 +57,7 @@ func (*Mutex) InstanceVariables() *InstanceVariables {
 
 func (m *Mutex) Lock() {
 	m.Native.Lock()
+	m.locked.Store(true)
 }
 
 func (m *Mutex) Unlock() (err Value) {
@@ -64,6 +67,9 @@ func (m *Mutex) Unlock() (err Value) {
 		}
 	}()
 
+	if !m.locked.CompareAndSwap(true, false) {
+		return Ref(NewError(MutexUnlockedErrorClass, "cannot unlock an unlocked mutex"))
+	}
 	m.Native.Unlock()
 	return Undefined
 }
